@@ -67,7 +67,8 @@ def Flags.identity (f : Flags) : Bool := !f.expand && !f.strip16 && !f.alpha
 structure TCfg where
   /-- `output_color_type` (mod.rs:596-632): (colour type, bit depth) -/
   outColorDepth : Info → Flags → Nat × Nat
-  /-- `create_transform_fn(info, transform)`: `Except.error` = the `Format` errors it can return -/
+  /-- `create_transform_fn(info, transform)`: `Except.error` = the `Format` errors it can return; a message
+      starting with `panic` stands for a panic inside it -/
   create : Info → Flags → Except String Unit
   /-- applying the cached function (created from `snapshot`) to `row` with an output buffer of
       `outLen` bytes and the current `info`; `none` = panic (length mismatch, index out of range) -/
@@ -116,6 +117,8 @@ structure R where
   cached : Option Info := none
   scratchLen : Nat := 0           -- scratch_buffer.len()
   finished : Bool := false
+  /-- `read_info(self)` failed: the `Decoder` is gone and no `Reader` exists -/
+  dead : Bool := false
 
 def ofFraming (e : Framing.Err) : Res :=
   match e with
@@ -231,7 +234,7 @@ def readUntilImageData (cfg : Cfg) (t : TCfg) (r : R) : R × Except Res Unit :=
         | .ok r3 => (r3, .ok ())
 
 /-- `Decoder::read_info` (mod.rs:190-236) -/
-def readInfo (cfg : Cfg) (t : TCfg) (r : R) : R × Res :=
+def readInfo' (cfg : Cfg) (t : TCfg) (r : R) : R × Res :=
   if r.isReader then (r, .panic "model: read_info called twice") else
   match readHeaderInfo cfg (fuelOf r) r with
   | (r', .error e) => (r', e)
@@ -254,9 +257,14 @@ def readInfo (cfg : Cfg) (t : TCfg) (r : R) : R × Res :=
           | some i2 =>
             let rem := match i2.actl with
               | none => 1
-              | some (nf, _) => if i2.fctl.isNone then nf + 1 else nf
+              | some (nf, _) => max 1 (if i2.fctl.isNone then nf + 1 else nf)
             ({ r2 with remaining := rem }, .header)
       | _, _ => (r', .err .limits "LimitsExceeded")
+
+def readInfo (cfg : Cfg) (t : TCfg) (r : R) : R × Res :=
+  match readInfo' cfg t r with
+  | (r', .header) => (r', .header)
+  | (r', e) => ({ r' with isReader := false, dead := true }, e)
 
 /-- `mark_subframe_as_consumed_and_flushed` (mod.rs:451-456) -/
 def markFlushed (r : R) : Except Res R :=
@@ -308,7 +316,7 @@ def nextRowImpl (cfg : Cfg) (t : TCfg) (r : R) (rowlen outLen : Nat) : R × Exce
         | some snap => .ok (r', snap)
         | none =>
           match t.create i r'.flags with
-          | .error w => .error (.err .format w)
+          | .error w => if w.startsWith "panic" then .error (.panic w) else .error (.err .format w)
           | .ok () => .ok ({ r' with cached := some i }, i)
       match created with
       | .error e => (r', .error e)
@@ -350,7 +358,7 @@ def nextInterlacedRow (cfg : Cfg) (t : TCfg) (r : R) : R × Res :=
   match infoOf r with
   | none => (r, .panic "info().unwrap()")
   | some i =>
-    let n := outLineSize t i r.flags i.width
+    let n := outLineSize t i r.flags r.sub.width      -- a row of the current (sub)frame (mod.rs:483)
     let r := { r with scratchLen := n }
     readRow cfg t r n
 
@@ -395,7 +403,7 @@ def nextFrame (cfg : Cfg) (t : TCfg) (r : R) (buf : Bytes) : R × Res :=
       let oi : OutputInfo := { width := r1.sub.width, height := r1.sub.height, color := c, depth := d, lineSize := outLineSize t i r1.flags r1.sub.width }
       let body : R × Except Res Bytes :=
         if i.interlaced then
-          let stride := outLineSize t i r1.flags i.width      -- canvas width (D8)
+          let stride := oi.lineSize
           frameInterlaced cfg t stride (samplesOf c * d) (7 * r1.sub.height + 8) r1 buf
         else
           let done := match r1.sub.cur with | some ii => ii.line | none => r1.sub.height
@@ -412,8 +420,7 @@ def nextFrame (cfg : Cfg) (t : TCfg) (r : R) (buf : Bytes) : R × Res :=
 def nextFrameInfo (cfg : Cfg) (t : TCfg) (r : R) : R × Res :=
   let rf : Except Res Nat :=
     if r.sub.caf then .ok r.remaining
-    else if r.remaining = 0 then .error (.panic "self.remaining_frames - 1 underflow (mod.rs:336)")
-    else .ok (r.remaining - 1)
+    else .ok (r.remaining - 1)        -- `saturating_sub(1)` (mod.rs:336)
   match rf with
   | .error e => (r, e)
   | .ok 0 => (r, .err .parameter "PolledAfterEndOfImage")
@@ -433,12 +440,14 @@ def nextFrameInfo (cfg : Cfg) (t : TCfg) (r : R) : R × Res :=
 /-- `finish` (mod.rs:552-566) -/
 def finish (cfg : Cfg) (r : R) : R × Res :=
   if r.finished then (r, .err .parameter "PolledAfterEndOfImage") else
-  let r := { r with remaining := 0, ub := UB.new }
+  -- the rest of the current frame is discarded (mod.rs:561-566)
+  let r := { r with remaining := 0, ub := UB.new, sub := { r.sub with cur := none, caf := true } }
   match readUntilEndOfInput cfg (fuelOf r) r with
   | (r', .error e) => (r', e)
   | (r', .ok ()) => ({ r' with finished := true }, .done)
 
 inductive Op
+  | readHeader
   | readInfo
   | nextFrame (prefill : UInt8)
   | nextRow
@@ -451,7 +460,13 @@ deriving Repr, DecidableEq
 /-- one public call (or a growth of the visible input) -/
 def step (cfg : Cfg) (t : TCfg) (r : R) : Op → R × Res
   | .grow n => ({ r with visible := min r.input.length (r.visible + n) }, .done)
-  | .readInfo => readInfo cfg t r
+  | .readInfo => if r.dead then (r, .err .parameter "model: Decoder consumed by a failed read_info") else readInfo cfg t r
+  | .readHeader =>
+    -- `Decoder::read_header_info` (only a `Decoder` has it)
+    if r.isReader ∨ r.dead then (r, .err .parameter "model: Decoder already consumed") else
+    match readHeaderInfo cfg (fuelOf r) r with
+    | (r', .error e) => (r', e)
+    | (r', .ok ()) => (r', .header)
   | op =>
     if !r.isReader then (r, .err .parameter "model: no Reader yet") else
     match op with
